@@ -13,12 +13,16 @@ _Q = st.integers(1, 12).map(lambda k: k / 4)  # dyadic(4, 0.25, 3)
 @st.composite
 def dyadic_costs(draw, force_ties=False):
     """(ins, del, sub) on the 1/4 grid, by class."""
-    classes = ["unit", "equal", "two_equal", "distinct", "sub_big", "ins_small", "sub_eq_sum", "sub_eq_2ins"]
+    classes = ["unit", "equal", "two_equal", "distinct", "sub_big", "ins_small", "sub_eq_sum", "sub_eq_2ins", "extreme"]
     if force_ties:
         classes = classes + ["sub_eq_sum", "sub_eq_2ins", "sub_eq_sum"]
     c = draw(st.sampled_from(classes))
     if c == "unit":
         return [1.0, 1.0, 1.0]
+    if c == "extreme":
+        # powers of two far apart: sums stay exact in float32 (<= 13 terms of at most 11 significant bits)
+        pool = [2.0 ** -8, 2.0 ** -4, 1.0, 16.0, 256.0]
+        return [draw(st.sampled_from(pool)), draw(st.sampled_from(pool)), draw(st.sampled_from(pool))]
     if c == "equal":
         v = draw(_Q)
         return [v, v, v]
@@ -62,7 +66,9 @@ def row(draw, width, alphabet, eos, len_class=None):
     """One full-width row; when eos is set it may be planted at a chosen position, and whatever
     follows is arbitrary filler (further eos copies, negative values, real tokens)."""
     filler_lo = -2
-    toks = draw(st.lists(st.integers(filler_lo, alphabet - 1) if eos is not None else st.integers(0, alphabet - 1),
+    filler = st.one_of(st.integers(filler_lo, alphabet - 1), st.integers(filler_lo, alphabet - 1),
+                       st.sampled_from([2 ** 40, -2 ** 40, 2 ** 31, -2 ** 31 - 1]))
+    toks = draw(st.lists(filler if eos is not None else st.integers(0, alphabet - 1),
                          min_size=width, max_size=width))
     if eos is None or width == 0:
         return toks
@@ -127,7 +133,7 @@ def has_post_eos_garbage(case_batch):
     return False
 
 
-LAYOUTS = ["contiguous", "contiguous", "transposed_view", "offset_view"]
+LAYOUTS = ["contiguous", "contiguous", "transposed_view", "offset_view", "strided_view"]
 
 
 def _lay(x, batch_first, layout):
@@ -138,6 +144,11 @@ def _lay(x, batch_first, layout):
     if layout == "transposed_view":
         return x.t().contiguous().t() if batch_first else x.t()
     y = x if batch_first else x.t().contiguous()
+    if layout == "strided_view":
+        # every second row of a tensor twice as tall (stride 2 along the first dimension)
+        big = torch.full((2 * y.shape[0],) + tuple(y.shape[1:]), 7, dtype=y.dtype)
+        big[::2] = y
+        return big[::2]
     if layout == "offset_view":
         junk = torch.full((2,) + tuple(y.shape[1:]), 9, dtype=y.dtype)
         y = torch.cat([junk, y, junk], 0)[2:2 + y.shape[0]]
@@ -204,7 +215,7 @@ def edited_pair(draw, max_len, alphabet):
 @st.composite
 def long_batch(draw, tier, max_n=3):
     big = tier == "thorough"
-    max_len = draw(st.sampled_from([20, 40] if not big else [20, 40, 70, 100]))
+    max_len = draw(st.sampled_from([20, 40, 17, 33] if not big else [20, 40, 70, 100, 17, 33, 65, 129]))
     N = draw(st.integers(1, max_n))
     A = draw(st.integers(2, 5))
     eos_kind = draw(st.sampled_from(["none", "outside", "outside"]))
